@@ -142,7 +142,9 @@ def run(cfg, V):
     if cfg["k"] == "unit":
         info = db.GetInfo(cfg["qt"], cfg["u"])
         y = V["y"]
-        return {"tb_x": info.tobase(x), "tb_y": info.tobase(y), "fb_x": info.frombase(x), "fb_y": info.frombase(y),
+        from .common import coef_tobase
+
+        return {"coef": coef_tobase(db, cfg["qt"], cfg["u"], x), "tb_x": info.tobase(x), "tb_y": info.tobase(y), "fb_x": info.frombase(x), "fb_y": info.frombase(y),
                 "fb_tb_x": info.frombase(info.tobase(x)), "tb_fb_x": info.tobase(info.frombase(x))}
     if cfg["k"] == "same_fp":
         from .c10 import _container
@@ -247,6 +249,8 @@ def props(cfg, T, obs):
             ("tobase-strictly-increasing", z3.Implies(x < y, term(obs["tb_x"]) < term(obs["tb_y"]))),
             ("frombase-strictly-increasing", z3.Implies(x < y, term(obs["fb_x"]) < term(obs["fb_y"]))),
         ]
+        if obs.get("coef") is not None:
+            P.append(("the to-base closure computes the POSC formula (A + B x) / (C + D x) of the coefficients the row publishes", approx(obs["tb_x"], obs["coef"])))
         if cfg.get("canary"):
             P.append(("canary:tobase-of-non-base-unit-is-identity", approx(obs["tb_x"], x)))
         return P
